@@ -540,14 +540,14 @@ def run(ctx) -> None:
 
 
 def status_eval(ctx, rule: str) -> bool:
-    """VCSAPI.status evaluated on every subset of six porcelain lines (unstaged, staged, deleted, untracked, untracked but
-    required, untracked with a blank in its name) and a required set: a line is reported iff it is not untracked or its path is
+    """VCSAPI.status evaluated on every subset of eight porcelain lines (unstaged, staged, deleted, untracked, untracked but
+    required, untracked with a blank in its name, untracked whose name differs from a required one in letter case or by a suffix) and a required set: a line is reported iff it is not untracked or its path is
     required; paths are the text after the two status columns, stripped; listing order is kept."""
     import itertools
     from sa.model import CannotFold, EvalError
     prog = ctx.prog
     fn = prog.function("vcs.VCSAPI.status")
-    pool = [" M a.txt", "A  b.txt", " D gone.txt", "?? new.txt", "?? req.txt", "?? sub dir/x y.txt"]
+    pool = [" M a.txt", "A  b.txt", " D gone.txt", "?? new.txt", "?? req.txt", "?? sub dir/x y.txt", "?? REQ.TXT", "?? ./req.txt2"]          # the last two are not required (other spelling / longer name)
     required = {"req.txt", "a.txt"}
     wrong: T.List[str] = []
     n = 0
